@@ -88,6 +88,7 @@ def f11_match(T):
 # ----------------------------------------------------------------------------------------
 def model_configs(rules=None):
     L = list(model.STATUTORY_CFG.values()) + [
+        model.cfgrec('wigm-prf-batch', p=1), model.cfgrec('cfer-batch', p=1), model.cfgrec('scotland', p=1), model.cfgrec('mpls', p=1),
         model.cfgrec('wigm', p=2, batch='none'),
         model.cfgrec('wigm', kind='guarded', p=2, g=1, batch='zero'),
         model.cfgrec('wigm', p=0, intq=True, batch='none'),
